@@ -264,7 +264,8 @@ def run(tier, seed):
         # ... and a locally named key that the layer leaves transparent, maps to itself by name, or that is only a deflayermap input
         # comes out as its own code: every code without a built-in name gets a local name here (240 = KEY_UNKNOWN among them)
         unnamed = [c for c in known if c not in set(name2code.values()) and is_plain(vmap[c]) and not (imin <= c <= imax) and c != 0]
-        pick = sorted(set(unnamed[:3] + [c for c in unnamed if c in (240,)] + rng.sample(unnamed, min(len(unnamed), 6 if tier == 'quick' else 60))))
+        # 240 (KEY_UNKNOWN) is a valid code for a locally named key in defsrc, whatever it stands for inside keyberon
+        pick = sorted(set(unnamed[:3] + [240] + rng.sample(unnamed, min(len(unnamed), 6 if tier == 'quick' else 60))))
         for code in pick:
             for form, cfgt in (('transparent', '(deflocalkeys-linux lk %d)\n(defsrc lk)\n(deflayer base _)'),
                                ('itself', '(deflocalkeys-linux lk %d)\n(defsrc lk)\n(deflayer base lk)'),
@@ -289,6 +290,19 @@ def run(tier, seed):
                 if evs != ['d%d' % c['code'], 'u%d' % c['code']]:
                     oracle.append(('deflocalkeys-linux binds %r to %d but the action %r outputs %s' % (c['nm'], c['code'], c['nm'], evs),
                                    kvlib.case_text(c, it)))
+    # ---- mouse buttons: the regenerated tables must be inverse to each other (the theorem C11_mouse_button_codes_round_trip says
+    # so; this names the button and the two codes when it does not)
+    try:
+        ctext = open(os.path.join(kvlib.VERIF, 'coq', 'theories', 'Gen', 'Consts.v')).read()
+        tin = [tuple(int(x) for x in m) for m in re.findall(r'\((\d+), (\d+)\)', re.search(r'src_osc_to_btn[^\[]*\[([^\]]*)\]', ctext).group(1))]
+        tout = dict(tuple(int(x) for x in m) for m in re.findall(r'\((\d+), (\d+)\)', re.search(r'src_btn_to_osc[^\[]*\[([^\]]*)\]', ctext).group(1)))
+        for code, b in tin:
+            evals += 1
+            if tout.get(b) != code:
+                oracle.append(('mouse button %d is read from code %d but written to the OS as code %s' % (b, code, tout.get(b)),
+                               'tables regenerated from src/kanata/output_logic.rs (osc_to_btn) and parser/src/keys/linux.rs (From<Btn> for OsCode)'))
+    except Exception as e:
+        broken.append(('translator: button tables', repr(e)))
     # ---- verdict
     violations = 0
     if oracle:
